@@ -29,7 +29,8 @@ CONSTANTS
     QueryPrefix,    \* B1: GeminiProtocol.query_prefix
     ServerName,     \* server.server_name
     ServerPort,     \* server.server_port (advertised port)
-    HiCode          \* percent code of the representative chosen for "^" ("FF", "E9", ...)
+    HiCode,         \* percent code of the representative chosen for "^" ("FF", "E9", ...)
+    Fixes           \* which of the proposed repairs the code under test has: subset of {"wap", "gemini", "spartan"}
 
 cTAB  == "\t"
 cCR   == "\r"
@@ -282,13 +283,20 @@ GPlusShape(line) == LET f == Fields(line) g == GPlusString(line) IN
                     Len(f) \in {2, 3} /\ g # "" /\ (Ch(g, 1) \in {"+", "$"} \/ g = "!")
 GPlusCrash(line) == Len(Fields(line)) \in {2, 3} /\ GPlusString(line) = ""            \* gopherpstring[0] on ""
 
+\* pinned code: a path that merely STARTS with the prefix is claimed ("/wapiti", "/GEMINI-QUERYx"); the proposed
+\* repair claims the prefix only as a whole path segment
+PrefixClaims(path, prefix, fix) ==
+    StartsWith(path, prefix)
+    /\ (fix \in Fixes => Len(path) = Len(prefix) \/ Ch(path, Len(prefix) + 1) \in {"/", "?"})
+
 \* header-based WAP detection needs Accept + x-wap-profile headers; requests here carry none
 Claims(cls, rq) ==
-    CASE cls = "WAPProtocol"    -> ~rq.tls /\ HttpShape(rq.line) /\ StartsWith(SpParts(rq.line)[2], WapTop)
+    CASE cls = "WAPProtocol"    -> ~rq.tls /\ HttpShape(rq.line) /\ PrefixClaims(SpParts(rq.line)[2], WapTop, "wap")
       [] cls = "GeminiProtocol" -> rq.tls /\ StartsWith(rq.line, "gemini://")
       [] cls = "HTTPProtocol"   -> ~rq.tls /\ HttpShape(rq.line)
       [] cls = "HTTPSProtocol"  -> rq.tls /\ HttpShape(rq.line)
       [] cls = "SpartanProtocol" -> ~rq.tls /\ IsAscii(rq.line) /\ SpartanShape(rq.line)
+                                    /\ ("spartan" \in Fixes => ~StartsWith(Strip(rq.line), "/"))
       [] cls = "GopherPlusProtocol" -> ~rq.tls /\ GPlusShape(rq.line)
       [] cls = "SecureGopherPlusProtocol" -> rq.tls /\ GPlusShape(rq.line)
       [] cls = "GopherProtocol" -> ~rq.tls
@@ -355,7 +363,7 @@ Parse(rq) ==
                                          !.search = IF Len(sp) >= 2 THEN HttpSearch(sp[2]) ELSE ""]
       [] cls = "GeminiProtocol" ->
             LET u == GemSplit(Strip(rq.line)) IN
-            IF StartsWith(u.path, QueryPrefix)
+            IF PrefixClaims(u.path, QueryPrefix, "gemini")
             THEN IF u.query = "" THEN [NoParse(cls) EXCEPT !.kind = "prompt"]
                  ELSE [NoParse(cls) EXCEPT !.kind = "redirect",
                          !.redirect = SubSeq(u.path, Len(QueryPrefix) + 1, Len(u.path)) \o "?" \o u.query]
